@@ -70,8 +70,15 @@ def run_gev(key):
     D, lead, tk, nk, use_eig, seed = (key[k] for k in ('D', 'lead', 'target', 'noise', 'use_eig', 'seed'))
     lead = tuple(lead)
     Pxx, Pnn, steer, cond = make_psds(seed, lead, D, tk, nk)
-    Pxx.setflags(write=False)
-    Pnn.setflags(write=False)
+    layout = key['layout']
+    if layout == 'fortran':
+        # column-major trailing (D, D) blocks, writeable: an in-place LAPACK call would clobber them
+        Pxx = np.ascontiguousarray(Pxx.swapaxes(-1, -2)).swapaxes(-1, -2)
+        Pnn = np.ascontiguousarray(Pnn.swapaxes(-1, -2)).swapaxes(-1, -2)
+    else:
+        Pxx.setflags(write=False)
+        Pnn.setflags(write=False)
+    snap_x, snap_n = Pxx.copy(), Pnn.copy()
     try:
         w = np.asarray(bf.get_gev_vector(Pxx, Pnn, use_eig=use_eig))
     except Exception as e:  # noqa
@@ -80,6 +87,8 @@ def run_gev(key):
         return viol(f'shape {w.shape} != {lead + (D,)}')
     if not np.isfinite(w).all():
         return viol('non-finite GEV vector')
+    if not (np.array_equal(Pxx, snap_x) and np.array_equal(Pnn, snap_n)):
+        return viol(f'get_gev_vector modified its PSD arguments ({layout} layout)')
     rt = 1e-11 * cond + 1e-9
     # all wrapper beamformers for the same PSDs (3-D stacks required by automatic reference: use ref 0)
     probes_by_name = {}
@@ -127,6 +136,12 @@ def run_gev(key):
                                                                  use_eig=use_eig))[0]
                 else:
                     R1 = np.asarray(bw.get_pca_rank_one_estimate(Pxx[idx][None]))[0]
+                    for sc in ('trace', 'eigenvalue'):
+                        R1s = np.asarray(bw.get_pca_rank_one_estimate(Pxx[idx][None], scaling=sc))[0]
+                        bad = tol.mismatch(R1s, R1, 1e-9, what=f'PCA rank-one estimate with scaling={sc!r} '
+                                                                f'vs default (trace must be preserved)')
+                        if bad:
+                            return viol(bad)
             except Exception as e:  # noqa
                 return viol(f'rank-one estimate ({kind}) raised {e!r}')
             if np.abs(R1 - R1.conj().T).max() > 1e-9 * (1 + np.abs(R1).max()):
@@ -143,6 +158,8 @@ def run_gev(key):
                 if bad:
                     return viol(bad)
         n += 1
+    if not (np.array_equal(Pxx, snap_x) and np.array_equal(Pnn, snap_n)):
+        return viol(f'a beamforming helper modified the PSD arguments ({layout} layout)')
     # BAN
     try:
         wb = np.asarray(bf.blind_analytic_normalization(w, Pnn))
@@ -211,8 +228,10 @@ def subchecks(tier, seed):
                 for tk in ('rank1', 'rank2', 'full'):
                     for nk in ('identity', 'cond1e3', 'cond1e6'):
                         for use_eig in (False, True):
-                            yield (D, lead, tk, nk, use_eig, seed)
-    subs.append(Sub('gev_ban_rank1', ('D', 'lead', 'target', 'noise', 'use_eig', 'seed'), gev_cases, run_gev))
+                            for layout in ('c_readonly', 'fortran'):
+                                yield (D, lead, tk, nk, use_eig, layout, seed)
+    subs.append(Sub('gev_ban_rank1', ('D', 'lead', 'target', 'noise', 'use_eig', 'layout', 'seed'),
+                    gev_cases, run_gev))
 
     def pca_cases():
         for D in (2, 3, 5, 8):
